@@ -120,7 +120,7 @@ def check(ctx, rep):
     if ok:
         f, bb, t = pe_sites[0]
         src = origins(f, t['args'][1])
-        ok = bool(src) and all(o.kind == 'call' and any(s_[0] == 'try' for s_ in o.steps) and
+        ok = bool(src) and all(o.kind == 'call' and (any(s_[0] == 'try' for s_ in o.steps) or o.suffix == ['as Ok', '.0']) and
                                (call_matches(o.term, ['core::result::Result::map_err']) or 'deserialize' in norm(o.term.get('callee') or ''))
                                for o in src)
     rep.expect('R12.b', ok, 'event-is-ok-payload', 'process_event receives `deserialize(data).map_err(..)?`',
